@@ -31,7 +31,8 @@ Definition strip_trailing (l : bytes) : bytes := rev (drop_blanks (rev l)).
 Definition lower (l : bytes) : bytes := map to_lower l.
 
 (** ---------------------------------------------------------------- rcpthosts-style lists (finddomain) *)
-Definition is_comment_line (l : bytes) : bool := match l with 35%N :: _ => true | _ => false end.
+Definition is_comment_line (l : bytes) : bool := match l with c :: _ => N.eqb c 35 | [] => false end.
+Definition dot_led (e : bytes) : bool := match e with c :: _ => N.eqb c 46 | [] => false end.
 
 (** the entries of a domain list: its lines (LF separated) that do not start
     with '#', without trailing blanks/tabs, empty ones dropped *)
@@ -47,17 +48,14 @@ Definition ci_suffix (e name : bytes) : Prop :=
 (** an entry matches a name when it equals it case-insensitively, or, for an
     entry starting with a dot, when the name is longer and ends with the entry *)
 Definition entry_matches (e name : bytes) : Prop :=
-  match e with
-  | 46%N :: _ => length e < length name /\ ci_suffix e name
-  | _ => lower name = lower e
-  end.
+  if dot_led e then length e < length name /\ ci_suffix e name
+  else lower name = lower e.
 
 Definition entry_matchb (name e : bytes) : bool :=
-  match e with
-  | 46%N :: _ => Nat.ltb (length e) (length name)
-                 && bytes_eqb (lower (skipn (length name - length e) name)) (lower e)
-  | _ => bytes_eqb (lower name) (lower e)
-  end.
+  if dot_led e
+  then Nat.ltb (length e) (length name)
+       && bytes_eqb (lower (skipn (length name - length e) name)) (lower e)
+  else bytes_eqb (lower name) (lower e).
 
 Definition fd_spec (buf name : bytes) : bool := existsb (entry_matchb name) (fd_entries buf).
 
